@@ -399,7 +399,85 @@ func c14RaceMatrix(w *h.W) {
 	w.Outcome("matrix-round")
 }
 
+// c12RaceHistories: every call history over {Next, Scan, Err, Close} of length <= 4 on the query kinds of
+// C12, with a background context, an already cancelled one, and one cancelled after the first call - on
+// real goroutines under the race detector (the consumer and the search goroutine of ONE iterator).
+func c12RaceHistories(w *h.W) {
+	queries := []string{"fail.", "X = 1.", "(X = 1 ; X = 2).", "(put_char(a), X = 1 ; put_char(b), X = 2 ; put_char(c), X = 3).", "throw(e).", "(X = 1 ; throw(e)).", "repeat, put_char(r), X = 7.", "member(X, [1, 2, 3]), assertz(seen(X))."}
+	ops := "NSEC"
+	maxLen := w.Pick(4, 5)
+	var hists []string
+	var gen func(s string)
+	gen = func(s string) {
+		if len(s) > 0 {
+			hists = append(hists, s)
+		}
+		if len(s) == maxLen {
+			return
+		}
+		for _, o := range ops {
+			gen(s + string(o))
+		}
+	}
+	gen("")
+	n := 0
+	for qi, q := range queries {
+		if qi%2 != w.Shard%2 {
+			continue
+		}
+		p := prolog.New(strings.NewReader(""), &bytes.Buffer{})
+		_ = p.Exec(":- dynamic(seen/1).")
+		for _, hist := range hists {
+			for mode := 0; mode < 3; mode++ {
+				ctx, cancel := context.WithCancel(context.Background())
+				if mode == 1 {
+					cancel()
+				}
+				sols, err := p.QueryContext(ctx, q)
+				if err != nil {
+					cancel()
+					continue
+				}
+				for i := 0; i < len(hist); i++ {
+					switch hist[i] {
+					case 'N':
+						sols.Next()
+					case 'S':
+						var dst struct{ X interface{} }
+						_ = sols.Scan(&dst)
+					case 'E':
+						_ = sols.Err()
+					case 'C':
+						_ = sols.Close()
+					}
+					if mode == 2 && i == 0 {
+						cancel()
+					}
+				}
+				// the caller goes on using what it has: a late Err and Close, as a deferred clean-up would do
+				_ = sols.Err()
+				_ = sols.Close()
+				_ = sols.Err()
+				if mode == 0 {
+					// (in the other modes the context is cancelled already; a second cancel() would take the
+					// context's lock once more and thereby order the accesses above before the search
+					// goroutine's last steps, hiding them from the detector)
+					cancel()
+				}
+				n++
+			}
+		}
+	}
+	w.Eval(n)
+	w.Transitions(n)
+	w.States(1)
+	w.Traces(1)
+	w.Nontrivial(fmt.Sprint("c12-histories", w.Shard))
+	w.Outcome("iterator-histories")
+}
+
 func c14RaceWork(w *h.W) {
+	c12RaceHistories(w)
 	c14RaceMatrix(w)
 	rounds := w.Pick(40, 400)
 	n := 8
@@ -469,7 +547,7 @@ func init() {
 	h.Register(&h.Check{
 		ID:     "C14race",
 		Hidden: true,
-		Rule:   "free-running -race pass: rounds of 8 interpreters created, loaded, queried (atom creation with colliding names, variable creation, database updates, operators, flags, I/O, early Close) concurrently on real goroutines; one round in which 8 interpreters run the whole goal matrix (every registered procedure x argument-shape tuples) at the same time while their callers read the results they were handed",
+		Rule:   "free-running -race pass: rounds of 8 interpreters created, loaded, queried (atom creation with colliding names, variable creation, database updates, operators, flags, I/O, early Close) concurrently on real goroutines; one round in which 8 interpreters run the whole goal matrix (every registered procedure x argument-shape tuples) at the same time while their callers read the results they were handed; and every call history of length <= 4 (5) over {Next, Scan, Err, Close} on 8 query kinds under a live, an already cancelled and a later cancelled context (the consumer and the search goroutine of one iterator)",
 		Explanation: "dynamic analysis (Go race detector) on free-running executions; complements the controlled exploration",
 		Work:   c14RaceWork,
 		Procs:  "8",
